@@ -37,6 +37,23 @@ Hrefs == {"h1", "h2", "h3"}
 Multigets == {[comp |-> c, hrefs |-> h] : c \in SmallCR, h \in UNION {[1..n -> Hrefs] : n \in 1..3}}
              \cup {[comp |-> c, hrefs |-> <<"h3", "h1">>] : c \in CompReqs}
 
+\* RFC-conformant spellings the library's own client never produces (server direction only): calendar-data without comp
+\* (with and without expand), negate-condition="no" written out
+NoComp(x) == [name |-> "", allprops |-> TRUE, props |-> << >>, allcomps |-> TRUE, comps |-> << >>, expand |-> x]
+NoCompData(x) == El(DAV, "prop", << >>, <<El(DAV, "getetag", << >>, << >>),
+                                         El(CAL, "calendar-data", << >>, Map(x, LAMBDA y : El(CAL, "expand", <<At("start", y.s), At("end", y.e)>>, << >>)))>>)
+AltFs == {f \in TopFs : f.isnd \/ (f.comps # << >> /\ f.comps[1].isnd) \/ (f.comps # << >> /\ ~f.comps[1].isnd /\ f.comps[1].tr # << >> /\ f.comps[1].props = << >> /\ f.comps[1].comps = << >>)}
+RECURSIVE ExplicitNo(_)
+ExplicitNo(n) == IF IsText(n) THEN n
+                 ELSE [n EXCEPT !.attrs = IF n.name = "text-match" /\ ~HasAttr(n, "negate-condition") THEN @ \o <<At("negate-condition", "no")>> ELSE @,
+                                !.kids = [i \in 1..Len(n.kids) |-> ExplicitNo(n.kids[i])]]
+AltQueries == {[q |-> [comp |-> NoComp(x), filter |-> f], srvonly |-> TRUE,
+                doc |-> El(CAL, "calendar-query", << >>, <<NoCompData(x), El(CAL, "filter", << >>, <<CompFDoc(f)>>)>>)] : x \in Expands, f \in AltFs}
+              \cup {[q |-> [comp |-> c, filter |-> f], srvonly |-> TRUE, doc |-> ExplicitNo(QueryDoc([comp |-> c, filter |-> f]))] :
+                      c \in {CHOOSE c \in SmallCR : c.expand = << >>}, f \in {g \in TopFs : ExplicitNo(CompFDoc(g)) # CompFDoc(g)}}
+AltMultigets == {[m |-> [comp |-> NoComp(x), hrefs |-> h], srvonly |-> TRUE,
+                  doc |-> El(CAL, "calendar-multiget", << >>, <<NoCompData(x)>> \o Map(h, LAMBDA y : El(DAV, "href", << >>, <<Txt(y)>>))) ] : x \in Expands, h \in {<<"h1">>, <<"h3", "h1">>}}
+
 \* documents outside the RFC: must be refused (4xx), no backend call
 Q0 == [comp |-> CHOOSE c \in SmallCR : c.expand = << >>, filter |-> CHOOSE f \in TopFs : ~f.isnd /\ f.comps = << >>]
 WithFilter(cf) == El(CAL, "calendar-query", << >>, <<PropDoc(Q0.comp), El(CAL, "filter", << >>, <<cf>>)>>)
@@ -59,12 +76,15 @@ InvalidDocs ==
 \* ---------- F0
 ASSUME \A q \in Queries : QueryShape(QueryDoc(q)) /\ QueryOrder(QueryDoc(q)) /\ QueryDenotes(QueryDoc(q)) = q
 ASSUME \A m \in Multigets : MultigetShape(MultigetDoc(m)) /\ MultigetDenotes(MultigetDoc(m)) = m
+ASSUME \A a \in AltQueries : QueryShape(a.doc) /\ QueryOrder(a.doc) /\ QueryDenotes(a.doc) = a.q
+ASSUME \A a \in AltMultigets : MultigetShape(a.doc) /\ MultigetDenotes(a.doc) = a.m
+ASSUME AltQueries # {} /\ \E a \in AltQueries : a.q.comp.name # ""
 
 Out == IOEnv.OUT
-ASSUME ndJsonSerialize(Out \o "/queries.ndjson", SetToSeq({[q |-> q, doc |-> QueryDoc(q)] : q \in Queries}))
-ASSUME ndJsonSerialize(Out \o "/multigets.ndjson", SetToSeq({[m |-> m, doc |-> MultigetDoc(m)] : m \in Multigets}))
+ASSUME ndJsonSerialize(Out \o "/queries.ndjson", SetToSeq(AltQueries) \o SetToSeq({[q |-> q, doc |-> QueryDoc(q), srvonly |-> FALSE] : q \in Queries}))
+ASSUME ndJsonSerialize(Out \o "/multigets.ndjson", SetToSeq(AltMultigets) \o SetToSeq({[m |-> m, doc |-> MultigetDoc(m), srvonly |-> FALSE] : m \in Multigets}))
 ASSUME ndJsonSerialize(Out \o "/invalid.ndjson", SetToSeq(InvalidDocs))
-ASSUME PrintT(<<"COUNTS", Cardinality(Queries), Cardinality(Multigets), Cardinality(InvalidDocs)>>)
+ASSUME PrintT(<<"COUNTS", Cardinality(Queries) + Cardinality(AltQueries), Cardinality(Multigets) + Cardinality(AltMultigets), Cardinality(InvalidDocs)>>)
 VARIABLE x
 Init == x = 0
 Next == UNCHANGED x
